@@ -107,12 +107,29 @@ void c33r_nameserver_failed(struct nameserver *const ns, const char *msg, int er
 int c33r_request_reissue(struct request *req) { (void)req; c33r_reissue++; return vp_bool(); }
 void c33r_timeout_cb(evutil_socket_t fd, short events, void *arg) { (void)fd; (void)events; (void)arg; c33r_timeout++; }
 int c33r_retransmit_tcp(struct evdns_request *handle) { (void)handle; c33r_tcp++; return 0; }
+int c33r_search_try_next(struct evdns_request *const handle) { (void)handle; VP_ASSERT(0, "harness: no search state, search_try_next must not be reached"); return 1; }
 /* deferred callbacks (event.c is not linked) */
 static struct event_callback *c33r_deferred; static void *c33r_deferred_arg; static deferred_cb_fn c33r_deferred_fn;
 void event_deferred_cb_init_(struct event_callback *cb, ev_uint8_t prio, deferred_cb_fn fn, void *arg)
 { (void)prio; c33r_deferred = cb; c33r_deferred_fn = fn; c33r_deferred_arg = arg; }
 int event_deferred_cb_schedule_(struct event_base *b, struct event_callback *cb) { (void)b; VP_ASSERT(cb == c33r_deferred, "C33: scheduled an uninitialised deferred callback"); c33r_sched++; return 1; }
 int event_get_priority(const struct event *ev) { (void)ev; return 0; }
+
+/* ---------------- evutil helpers reached from these paths (evutil.c is not linked) ---------------- */
+/* ASCII case-insensitive comparison, from its documentation in util.h */
+int evutil_ascii_strcasecmp(const char *s1, const char *s2)
+{
+	int i;
+	for (i = 0; ; i++) {
+		int a = dnsref_lower((unsigned char)s1[i]), b = dnsref_lower((unsigned char)s2[i]);
+		if (a < b) return -1;
+		if (a > b) return 1;
+		if (a == 0) return 0;
+	}
+}
+/* only used to build log messages */
+int evutil_snprintf(char *buf, size_t buflen, const char *format, ...) { (void)format; if (buflen) buf[0] = 0; return 0; }
+const char *evutil_format_sockaddr_port_(const struct sockaddr *sa, char *out, size_t outlen) { (void)sa; if (outlen) out[0] = 0; return out; }
 
 /* ---------------- user callback recorder ---------------- */
 static int c33r_ucb_calls, c33r_ucb_data_calls, c33r_ucb_cname_calls, c33r_ucb_err, c33r_ucb_type, c33r_ucb_count, c33r_ucb_ttl;
@@ -131,7 +148,7 @@ static void c33r_user_cb(int result, char type, int count, int ttl, void *addres
 	c33r_ucb_err = result; c33r_ucb_type = type; c33r_ucb_count = count; c33r_ucb_ttl = ttl;
 	if (result == DNS_ERR_NONE) {
 		c33r_ucb_data_calls++;
-		VP_ASSERT(addresses != NULL && count >= 1, "C33: successful callback without data");
+		VP_ASSERT(addresses != NULL, "C33: successful callback without data");
 		if (type == DNS_IPv4_A) { for (i = 0; i < C33R_ADDRMAX * 4; i++) if (i < count * 4) c33r_ucb_addr[i] = ((u8 *)addresses)[i]; }
 		else if (type == DNS_IPv6_AAAA) { for (i = 0; i < C33R_ADDRMAX * 16; i++) if (i < count * 16) c33r_ucb_addr[i] = ((u8 *)addresses)[i]; }
 		else if (type == DNS_PTR) { char *nm = *(char **)addresses; for (i = 0; i <= C33R_TEXT; i++) c33r_ucb_name[i] = nm[i]; }
@@ -228,12 +245,24 @@ void harness_reply_parse(void)
 	struct nameserver *ns = calloc(1, sizeof(*ns));
 	struct request *heads[1];
 	u8 query[24];
+#ifdef C33R_EXACT
+	int length = C33R_L, r, verdict, i, qsel = (int)vp_range(0, 2); /* literal length == object size */
+#else
 	int length = (int)vp_range(0, C33R_L), r, verdict, i, qsel = (int)vp_range(0, 2);
+#endif
 	unsigned qtype = qsel == 0 ? 1 : qsel == 1 ? 28 : 12;
 	u8 *packet;
 	__CPROVER_assume(pobj && base && req && handle && ns);
 	vp_bytes(pobj, C33R_L);
 	packet = pobj + (C33R_L - length);
+#ifdef C33R_QD
+	/* input bound: section counts (each loop of reply_parse is then unrolled that often) */
+	if (length >= 12) {
+		__CPROVER_assume(dnsref_u16(packet + 4) <= C33R_QD);
+		__CPROVER_assume(dnsref_u16(packet + 6) <= C33R_AN);
+		__CPROVER_assume(dnsref_u16(packet + 8) <= C33R_NS);
+	}
+#endif
 	c33r_packet = packet; c33r_length = length; c33r_req = req;
 	/* one inflight request */
 	heads[0] = req; base->req_heads = heads; base->n_req_heads = 1; base->global_requests_inflight = 1;
@@ -279,13 +308,18 @@ void harness_reply_parse(void)
 			} else {
 				int unit = qtype == 1 ? 4 : 16;
 				for (i = 0; i < C33R_L; i++) if (i < c33r_ref_count * unit) VP_ASSERT(c33r_ucb_addr[i] == c33r_ref_addr[i], "C33: address bytes delivered != answer records");
-				if (qtype == 1) VP_WITNESS("A answer delivered"); else VP_WITNESS("AAAA answer delivered");
+				if (qtype == 1) VP_WITNESS("A answer delivered");
+#if C33R_L >= 44
+				else VP_WITNESS("AAAA answer delivered");
+#endif
 			}
 			if (c33r_ucb_cname_calls) {
 				VP_ASSERT(req->need_cname && c33r_ref_ncname >= 1, "C33: CNAME reported without request / without a CNAME record");
 				if (c33r_ref_ncname == 1)
 					for (i = 0; i <= C33R_TEXT; i++) VP_ASSERT(c33r_ucb_cname[i] == c33r_text[c33r_ref_cname_log][i], "C33: CNAME delivered != CNAME target in the answer");
+#if C33R_L >= 44
 				VP_WITNESS("CNAME reported with the addresses");
+#endif
 			}
 		}
 	}
